@@ -99,6 +99,76 @@ fam!(row_both R05 [] { a: i32, #[scylla(skip)] s: String, b: Option<String>, c: 
 fam!(row_both R06 [] { a: i32, #[scylla(default_when_null)] b: String, #[scylla(default_when_null)] c: Option<i64>, d: Vec<i32> });
 fam!(row_both R07 [] { a: i32, b: i32, c: Option<i32>, d: String, e: String });
 
+// single-derive structs (attribute sets that only one of the two value macros documents)
+fam!(value_ser V13 [] { a: i32, b: Option<String>, c: i64 });
+fam!(value_de V14 [] {
+    #[scylla(allow_missing)] a: i32,
+    #[scylla(default_when_null)] b: String,
+    #[scylla(rename = "cee")] c: Option<i64>,
+    #[scylla(skip)] s: bool,
+    d: f64,
+});
+fam!(value_de V15 [flavor = "enforce_order"] { a: i32, #[scylla(allow_missing)] b: String, #[scylla(default_when_null)] c: i64, #[scylla(allow_missing)] d: Option<bool> });
+fam!(value_ser V16 [flavor = "enforce_order"] { a: i32, #[scylla(rename = "bee")] b: Option<String>, c: Vec<i32> });
+fam!(value_ser V17 [flavor = "match_by_name", forbid_excess_udt_fields] { a: i32, #[scylla(skip)] s: i32, b: i32, c: Option<i32> });
+
+// ------------------------------------------------------------------------------------------------
+// UDT, enforce_order
+// ------------------------------------------------------------------------------------------------
+fam!(value_both V20 [flavor = "enforce_order"] { a: i32, b: String, c: bool });
+fam!(value_both V21 [flavor = "enforce_order"] { a: Option<i32>, b: String, c: Option<i64>, d: f64 });
+fam!(value_both V22 [flavor = "enforce_order"] { #[scylla(rename = "b")] a: i32, #[scylla(rename = "a")] b: i64, c: String });
+fam!(value_both V23 [flavor = "enforce_order"] { a: i32, #[scylla(skip)] s: String, b: Option<String>, c: i64 });
+fam!(value_both V24 [flavor = "enforce_order"] { a: i32, #[scylla(allow_missing)] b: Option<String>, c: i64, #[scylla(allow_missing)] d: bool });
+fam!(value_both V25 [flavor = "enforce_order"] { a: i32, #[scylla(default_when_null)] b: String, #[scylla(default_when_null)] c: Option<i64>, d: Vec<i32> });
+fam!(value_both V26 [flavor = "enforce_order", forbid_excess_udt_fields] { a: i32, b: String, c: Option<bool> });
+fam!(value_both V27 [flavor = "enforce_order", skip_name_checks] { a: i32, b: String, c: bool });
+fam!(value_both V28 [flavor = "enforce_order", skip_name_checks, forbid_excess_udt_fields] { a: i32, b: Option<String>, #[scylla(allow_missing)] c: i64, #[scylla(allow_missing)] d: bool });
+fam!(value_both V29 [flavor = "enforce_order", skip_name_checks] { a: i32, b: i32, c: Option<i32>, d: String });
+fam!(value_both V30 [flavor = "enforce_order"] { a: i32, b: i32, c: Option<i32>, d: String, e: String });
+fam!(value_both V31 [flavor = "enforce_order"] { a: i32, b: Option<String>, c: bool, d: Option<i64>, e: f64, f: Vec<i32> });
+fam!(value_both V32 [flavor = "enforce_order", forbid_excess_udt_fields] {
+    #[scylla(allow_missing)] #[scylla(default_when_null)] a: i32,
+    #[scylla(rename = "B")] b: Option<String>,
+    #[scylla(skip)] s: i64,
+    #[scylla(allow_missing)] c: bool,
+    d: f64,
+});
+fam!(value_both V33 [flavor = "enforce_order", skip_name_checks] { a: i32, #[scylla(skip)] s: String, #[scylla(default_when_null)] b: i64, c: Option<String> });
+
+// ------------------------------------------------------------------------------------------------
+// rows, enforce_order
+// ------------------------------------------------------------------------------------------------
+fam!(row_both R20 [flavor = "enforce_order"] { a: i32, b: String, c: bool });
+fam!(row_both R21 [flavor = "enforce_order"] { a: Option<i32>, b: String, c: Option<i64>, d: f64, e: Vec<i32> });
+fam!(row_both R22 [flavor = "enforce_order"] { #[scylla(rename = "b")] a: i32, #[scylla(rename = "a")] b: i64, #[scylla(rename = "sea")] c: String });
+fam!(row_both R23 [flavor = "enforce_order"] { a: i32, #[scylla(skip)] s: String, b: Option<String>, c: i64 });
+fam!(row_both R24 [flavor = "enforce_order"] { a: i32, #[scylla(default_when_null)] b: String, #[scylla(default_when_null)] c: Option<i64>, d: Vec<i32> });
+fam!(row_both R25 [flavor = "enforce_order", skip_name_checks] { a: i32, b: String, c: Option<bool> });
+fam!(row_both R26 [flavor = "enforce_order", skip_name_checks] { a: i32, b: i32, c: Option<i32>, d: String });
+fam!(row_both R27 [flavor = "enforce_order", skip_name_checks] { a: i32, #[scylla(skip)] s: String, #[scylla(default_when_null)] b: i64, c: Option<String> });
+fam!(row_de R12 [] { #[scylla(default_when_null)] a: i32, #[scylla(rename = "bee")] b: Option<String>, #[scylla(skip)] s: f64, c: bool });
+fam!(row_ser R13 [] { a: i32, #[scylla(rename = "bee")] b: Option<String>, #[scylla(skip)] s: f64, c: bool });
+
+// ------------------------------------------------------------------------------------------------
+// flatten (SerializeRow only). Inner structs are family members themselves.
+// ------------------------------------------------------------------------------------------------
+fam!(row_ser FIn1 [] { b: String, c: Option<i64> });
+fam!(row_ser R08 [] { a: i32, #[scylla(flatten)] inner: FIn1, d: bool });
+fam!(row_ser FIn2 [] { c: i64, #[scylla(rename = "dee")] d: String, #[scylla(skip)] s: i32 });
+fam!(row_ser FMid [] { b: Option<String>, #[scylla(flatten)] inn: FIn2, e: bool });
+// nested flatten, 6 leaves
+fam!(row_ser R09 [] { a: i32, #[scylla(flatten)] mid: FMid, f: f64 });
+fam!(row_ser FIn3 [] { x: i32, y: i32 });
+// two flattened fields, first and last, same-typed leaves
+fam!(row_ser R10 [] { #[scylla(flatten)] first: FIn1, a: i32, #[scylla(flatten)] second: FIn3 });
+fam!(row_ser FOIn1 [flavor = "enforce_order"] { b: String, c: Option<i64> });
+fam!(row_ser R28 [flavor = "enforce_order"] { a: i32, #[scylla(flatten)] inner: FOIn1, d: bool });
+fam!(row_ser FOIn2 [flavor = "enforce_order", skip_name_checks] { p: i32, q: i32 });
+fam!(row_ser R29 [flavor = "enforce_order", skip_name_checks] { a: i32, #[scylla(flatten)] inner: FOIn2, z: String });
+fam!(row_ser FOMid [flavor = "enforce_order"] { a: i32, #[scylla(flatten)] i: FOIn1, d: bool });
+fam!(row_ser R30 [flavor = "enforce_order"] { #[scylla(flatten)] m: FOMid, e: f64 });
+
 pub fn family() -> Vec<Entry> {
     vec![
         V01::entry(),
@@ -113,6 +183,25 @@ pub fn family() -> Vec<Entry> {
         V10::entry(),
         V11::entry(),
         V12::entry(),
+        V13::entry(),
+        V14::entry(),
+        V15::entry(),
+        V16::entry(),
+        V17::entry(),
+        V20::entry(),
+        V21::entry(),
+        V22::entry(),
+        V23::entry(),
+        V24::entry(),
+        V25::entry(),
+        V26::entry(),
+        V27::entry(),
+        V28::entry(),
+        V29::entry(),
+        V30::entry(),
+        V31::entry(),
+        V32::entry(),
+        V33::entry(),
         R01::entry(),
         R02::entry(),
         R03::entry(),
@@ -120,5 +209,28 @@ pub fn family() -> Vec<Entry> {
         R05::entry(),
         R06::entry(),
         R07::entry(),
+        R08::entry(),
+        R09::entry(),
+        R10::entry(),
+        R12::entry(),
+        R13::entry(),
+        R20::entry(),
+        R21::entry(),
+        R22::entry(),
+        R23::entry(),
+        R24::entry(),
+        R25::entry(),
+        R26::entry(),
+        R27::entry(),
+        R28::entry(),
+        R29::entry(),
+        R30::entry(),
+        FIn1::entry(),
+        FIn2::entry(),
+        FIn3::entry(),
+        FMid::entry(),
+        FOIn1::entry(),
+        FOIn2::entry(),
+        FOMid::entry(),
     ]
 }
